@@ -282,6 +282,9 @@ def c19(run):
     run.model("MCRegistry.tla", "MCRegistry_dev_split_lin.cfg", expect="Linearizable")
     run.model("MCRegistry.tla", "MCRegistry_dev_getnolock.cfg", expect="NoRace")
     run.model("MCRegistry.tla", "MCRegistry_dev_readlock.cfg", expect="NoRace")
+    # a Clear that is not atomic over the names: scenario of 3 goroutines x 2 calls (one registers A and B, one clears, one looks up)
+    run.model("MCRegistry.tla", "MCRegistry_walk_ok.cfg", note="3 goroutines x 2 calls, roles fixed (register / clear / look up): Linearizable")
+    run.model("MCRegistry.tla", "MCRegistry_dev_clearpername.cfg", expect="Linearizable")
     # A: TLC's schedules forced on real goroutines through the gate hook
     run.sched_replay("RegistrySched_3x1.cfg", sample=Q(run, 3000, None), note="3 goroutines x 1 call")
     if run.tier == "thorough":
@@ -301,8 +304,8 @@ def c19(run):
     run.assumptions += ["interleavings on the real code are exhaustive only for the gated schedules TLC generates; the stress part is probabilistic",
                         "the race detector and the Go memory model are trusted as sensors",
                         "a schedule in which the model lets a goroutine in but the real lock does not (stricter locking) is inconclusive, not a violation"]
-    return run.finish("design model: ChecksumRegistry.tla at lock granularity (Call/Acquire/Finish), exhaustive for the stated constants, plus four deviation "
-                      "configurations that must fail. A: every behaviour of the deterministic restriction RegistrySched (eager acquisition, at most one blocked "
+    return run.finish("design model: ChecksumRegistry.tla at lock granularity (Call/Acquire/Finish), exhaustive for the stated constants, plus five deviation "
+                      "configurations that must fail (SplitCheckInsert x2, GetWithoutLock, ReadLockForWrite, ClearPerName). A: every behaviour of the deterministic restriction RegistrySched (eager acquisition, at most one blocked "
                       "goroutine) is forced on real goroutines through the ':locked' hook of the verif build; blocked goroutines must not enter their critical "
                       "section and every call must return the model's result. B: hook-free stress (4-12 goroutines) built with -race; every history is "
                       "checked for linearizability by TLC (TraceRegistry.tla, internal linearization step). distinct_nontrivial = distinct schedules forced "
